@@ -911,3 +911,119 @@ Proof.
   split; [exact Q|]. split; [eapply ci_pending; [eapply reach_cinv, creach_reach, CR|exact Hc|exact Kc|exact Oc]|].
   split; [exact A|]. intros o oev Io Ho Co Fo. destruct (F _ _ Io Ho Co Fo) as [K|(_ & [])]. exact K.
 Qed.
+
+(* ------------------------------------------------------------------------------------------------ *)
+(* corollaries of [cond_step] in the words of the property *)
+
+Lemma creach_step_ok codes X fuel s s' : creach codes X s -> step fuel codes s = (s', ROk) -> exists X', creach codes (X ++ X') s'.
+Proof. intros C H. destruct (step_ok_clean _ _ _ _ H) as (e & CS). eapply creach_step; eassumption. Qed.
+
+(* never earlier: a step that processes an event which is not an operand leaves the condition pending *)
+Corollary cond_not_earlier codes X fuel s s' e c cev all ops n :
+  creach codes X s -> clean_step fuel codes s s' e ->
+  get_event c s = Some cev -> kind cev = KCond all ops n -> out cev = None -> ~ detached s c -> ~ In e ops ->
+  exists X', etrace codes X' s s' /\ (~ In c (X ++ X') -> exists cev' n', get_event c s' = Some cev' /\ kind cev' = KCond all ops n' /\ out cev' = None).
+Proof.
+  intros CR CS Hc Kc Oc ND Ni. destruct (cond_step codes X fuel s s' e c cev all ops n CR CS Hc Kc Oc ND) as (X' & T & _ & _ & H).
+  exists X'. split; [exact T|]. intros NX. destruct (H NX) as (cev' & n' & eev' & Hc' & Kc' & _ & _ & A & _).
+  exists cev', n'. auto.
+Qed.
+
+(* any_of: the step that processes the FIRST of its operands triggers it (with success, or with that operand's failure) *)
+Corollary any_of_first codes X fuel s s' e c cev ops n :
+  creach codes X s -> clean_step fuel codes s s' e ->
+  get_event c s = Some cev -> kind cev = KCond false ops n -> out cev = None -> ~ detached s c -> In e ops ->
+  procpos s ops = 0%nat /\
+  exists X', etrace codes X' s s' /\
+    (~ In c (X ++ X') -> exists cev' n' eev', get_event c s' = Some cev' /\ kind cev' = KCond false ops n' /\ get_event e s' = Some eev' /\
+       ((exists x, out cev' = Some (Fail x) /\ defused eev' = true /\ (out eev' = Some (Fail x) \/ kproc eev')) \/
+        (out cev' = Some (Ok VNone) /\ (is_failed eev' = false \/ kproc eev')))).
+Proof.
+  intros CR CS Hc Kc Oc ND Ii.
+  destruct (cond_pending_boundary codes X s c cev false ops n CR Hc Kc Oc ND) as (Q & Ev & _).
+  split.
+  - cbn in Ev. apply orb_false_iff in Ev. destruct Ev as [Ev _]. destruct n; [lia|discriminate].
+  - destruct (cond_step codes X fuel s s' e c cev false ops n CR CS Hc Kc Oc ND) as (X' & T & _ & _ & H).
+    exists X'. split; [exact T|]. intros NX. destruct (H NX) as (cev' & n' & eev' & Hc' & Kc' & He' & _ & _ & B).
+    exists cev', n', eev'. split; [exact Hc'|]. split; [exact Kc'|]. split; [exact He'|].
+    destruct (B Ii) as [(_ & Al & _)|[F|(O & _ & G)]]; [discriminate|left; exact F|right; auto].
+Qed.
+
+(* all_of: it succeeds exactly in the step that processes its LAST unprocessed operand; a failing operand fails it;
+   otherwise it stays pending, having counted exactly the processed operands *)
+Corollary all_of_last codes X fuel s s' e c cev ops n :
+  creach codes X s -> clean_step fuel codes s s' e ->
+  get_event c s = Some cev -> kind cev = KCond true ops n -> out cev = None -> ~ detached s c -> In e ops ->
+  (procpos s ops < length ops)%nat /\
+  exists X', etrace codes X' s s' /\
+    (~ In c (X ++ X') -> exists cev' n' eev', get_event c s' = Some cev' /\ kind cev' = KCond true ops n' /\ get_event e s' = Some eev' /\
+       ((out cev' = None /\ (procpos s' ops < length ops)%nat /\ (is_failed eev' = false \/ kproc eev')) \/
+        (exists x, out cev' = Some (Fail x) /\ defused eev' = true /\ (out eev' = Some (Fail x) \/ kproc eev')) \/
+        (out cev' = Some (Ok VNone) /\ (forall o, In o ops -> o = e \/ is_proc s o = true) /\ (is_failed eev' = false \/ kproc eev')))).
+Proof.
+  intros CR CS Hc Kc Oc ND Ii.
+  destruct (cond_pending_boundary codes X s c cev true ops n CR Hc Kc Oc ND) as (Q & Ev & _).
+  pose proof (procpos_le_length s ops) as PL.
+  split.
+  - cbn in Ev. apply Nat.eqb_neq in Ev. lia.
+  - destruct (cond_step codes X fuel s s' e c cev true ops n CR CS Hc Kc Oc ND) as (X' & T & _ & IP & H).
+    exists X'. split; [exact T|]. intros NX. destruct (H NX) as (cev' & n' & eev' & Hc' & Kc' & He' & Le' & _ & B).
+    exists cev', n', eev'. split; [exact Hc'|]. split; [exact Kc'|]. split; [exact He'|].
+    pose proof (procpos_le_length s' ops) as PL'.
+    destruct (B Ii) as [(O & _ & Q' & Ev' & G)|[F|(O & Ev' & G)]].
+    + left. split; [exact O|]. split; [|exact G]. cbn in Ev'. apply Nat.eqb_neq in Ev'. lia.
+    + right. left. exact F.
+    + right. right. split; [exact O|]. split; [|exact G]. cbn in Ev'. apply Nat.eqb_eq in Ev'.
+      assert (All : procpos s' ops = length ops) by lia. intros o Io. apply IP. apply (proj1 (procpos_all s' ops) All o Io).
+Qed.
+
+(* ------------------------------------------------------------------------------------------------ *)
+(* nested conditions: the hypothesis "not detached" cannot be dropped.  all_of [a; b] nested in any_of [c; x]: once the
+   outer condition has been processed (x fired first), the inner one never triggers although a and b are processed *)
+
+Definition detach_demo : frag unit :=
+  FCall (CTimeout 2 (VInt 1)) (fun _ => FCall (CTimeout 3 (VInt 2)) (fun _ => FCall (CTimeout 1 (VInt 3)) (fun _ =>
+  FCall (CAllOf [0; 1]%nat) (fun _ => FCall (CAnyOf [3; 2]%nat) (fun _ => FRet VNone))))).
+
+Theorem all_of_refuted_when_detached :
+  exists (codes : list prog) X s c cev ops n,
+    creach codes X s /\ get_event c s = Some cev /\ kind cev = KCond true ops n /\ out cev = None /\
+    (forall o, In o ops -> is_proc s o = true) /\ agenda s = [] /\ detached s c.
+Proof.
+  set (s1 := fst (exec_top [] detach_demo (init_state 0))).
+  set (s2 := fst (step 50 [] s1)). set (s3 := fst (step 50 [] s2)). set (s4 := fst (step 50 [] s3)). set (s5 := fst (step 50 [] s4)).
+  assert (C0 : creach [] [] (init_state 0)) by constructor.
+  destruct (creach_exec_top [] [] detach_demo (init_state 0) C0) as (X1 & C1). fold s1 in C1.
+  assert (St : forall s, snd (step 50 [] s) = ROk -> step 50 [] s = (fst (step 50 [] s), ROk)).
+  { intros s H. rewrite <- H. destruct (step 50 [] s); reflexivity. }
+  destruct (creach_step_ok [] _ 50 s1 s2 C1 (St s1 ltac:(vm_compute; reflexivity))) as (X2 & C2).
+  destruct (creach_step_ok [] _ 50 s2 s3 C2 (St s2 ltac:(vm_compute; reflexivity))) as (X3 & C3).
+  destruct (creach_step_ok [] _ 50 s3 s4 C3 (St s3 ltac:(vm_compute; reflexivity))) as (X4 & C4).
+  destruct (creach_step_ok [] _ 50 s4 s5 C4 (St s4 ltac:(vm_compute; reflexivity))) as (X5 & C5).
+  exists [], ((((([] ++ X1) ++ X2) ++ X3) ++ X4) ++ X5), s5, 3%nat. eexists. exists [0; 1]%nat, 0%nat. split; [exact C5|].
+  split; [vm_compute; reflexivity|]. split; [reflexivity|]. split; [reflexivity|].
+  split; [intros o [<-|[<-|[]]]; vm_compute; reflexivity|]. split; [vm_compute; reflexivity|].
+  exists 4%nat. split; [|split; [discriminate|vm_compute; reflexivity]].
+  eapply desc_step with (d := 4%nat) (ops := [3; 2]%nat); [constructor|vm_compute; reflexivity|reflexivity|left; reflexivity].
+Qed.
+
+(* the hypotheses of [cond_step] are satisfiable: a = timeout 1, b = timeout 2, c = all_of [a; b]; first step *)
+Definition step_demo : frag unit :=
+  FCall (CTimeout 1 (VInt 1)) (fun _ => FCall (CTimeout 2 (VInt 2)) (fun _ => FCall (CAllOf [0; 1]%nat) (fun _ => FRet VNone))).
+
+Example cond_step_hypotheses :
+  let s := fst (exec_top [] step_demo (init_state 0)) in
+  exists X cev s' e, creach [] X s /\ clean_step 50 [] s s' e /\
+    get_event 2%nat s = Some cev /\ kind cev = KCond true [0; 1]%nat 0 /\ out cev = None /\ ~ detached s 2%nat.
+Proof.
+  cbv zeta. set (s := fst (exec_top [] step_demo (init_state 0))).
+  destruct (creach_exec_top [] [] step_demo (init_state 0) (cr_init [] 0)) as (X1 & C1). fold s in C1.
+  assert (St : step 50 [] s = (fst (step 50 [] s), ROk)).
+  { assert (H : snd (step 50 [] s) = ROk) by (vm_compute; reflexivity). rewrite <- H. destruct (step 50 [] s); reflexivity. }
+  destruct (step_ok_clean _ _ _ _ St) as (e & CS).
+  eexists _, _, _, e. split; [exact C1|]. split; [exact CS|].
+  split; [vm_compute; reflexivity|]. split; [reflexivity|]. split; [reflexivity|].
+  intros (d & _ & _ & P). unfold is_proc in P.
+  destruct d as [|[|[|d]]]; try (vm_compute in P; discriminate).
+  rewrite get_ge in P; [discriminate|]. vm_compute. lia.
+Qed.
